@@ -278,6 +278,8 @@ var corpus = []string{
 	"[1, 2, 3, 4, 5, 6, 7, 8, 9, 10, 11, 12, 13, 14, 15, 16, 17, 18, 19, 20](List)\n",
 	"[\n    1: [\n        2: [\n            3: \"x\"\n        ](Catalog)\n    ](Catalog)\n](Catalog)\n",
 	"[1, 2, 3, 4, 5, 6, 7, 8, 9, 10, 11, 12, 13, 14, 15, 16, 17, 18](Queue)\n",
+	"[\"é😀\", 'ü', 1, 2](List)\n",
+	"[\n    \"ключ\": 1\n    \"ß\": [true, 'é', \"日本\"](Set)\n](Catalog)\n",
 	"[\n    \"k1\": 1\n    \"k2\": 2\n    \"k3\": 3\n    \"k4\": 4\n    \"k5\": 5\n    \"k6\": 6\n    \"k7\": 7\n](Catalog)\n",
 }
 
